@@ -272,6 +272,31 @@ def pack_rule(ctx, crate):
         return False
     has0 = any(d[0] == 'op' and d[1] in ('eq', 'ne', 'gt', 'lt', 'ge', 'le') and ((depth_like(d[3]) and d[4] == C('u8', 0)) or (depth_like(d[4]) and d[3] == C('u8', 0)))
                for d, loc in e.branches if loc[0] == fn)
+    # the two predicates of the skip loop, as functions: a cell may start a group only if it is full
+    # (flag bit set) and is the first of its four siblings (two low bits of its hash clear)
+    from bits import Bits, sym_bits
+    from rules.common import feval
+    for hf, want in ((M + "is_partial", "flag"), (M + "is_not_first_cell_of_larger_cell", "low2")):
+        hb = ctx.anchor(crate, hf, clause)
+        if hb is None: continue
+        eh = Engine(crate); rh = eh.run(hf); ctx.functions |= eh.visited_fns
+        pn = hb.param_names()
+        okh = False; why = "no value"
+        if rh.returns and len(pn) == 1:
+            if want == "flag":
+                rb = sym_bits('r', 64, 64)
+                v = Bits(crate, {('p', pn[0]): rb}, eh.phi_ops).ev(rh.ret)
+                okh = isinstance(v, list) and len(v) == 1 and v[0] == (rb[0] ^ 1 if not isinstance(rb[0], tuple) else None)
+                if not okh:
+                    # fall back on reading the term: true exactly when bit 0 (the full flag of the codec, C09) is clear
+                    vals = [feval(rh.ret, {('p', pn[0]): x}, eh) for x in range(16)]
+                    okh = all(val is not None and bool(val) == (x & 1 == 0) for x, val in zip(range(16), vals))
+                why = "is_partial(raw) = (bit 0 of raw is clear): bit 0 is the full flag of the codec (C09)"
+            else:
+                vals = [feval(rh.ret, {('p', pn[0]): x}, eh) for x in range(64)]
+                okh = all(val is not None and bool(val) == (x & 3 != 0) for x, val in zip(range(64), vals))
+                why = "is_not_first_cell_of_larger_cell(h) = (h & 3 != 0), read at h = 0..63"
+        ctx.report(clause, "pack:%s" % hf.rsplit("::", 1)[-1], okh, why if okh else "%s is not that predicate: %s — the search for a group to merge starts on the wrong cells (four full siblings stay unmerged)" % (hf, show(rh.ret)[:80] if rh.returns else "?"), at=hb.span, kind="N")
     ctx.report(clause, "pack:base-cells-never-merged", has0, "the search for a first sibling skips cells with depth == 0", at=b.span, kind="N")
 
 
